@@ -306,7 +306,7 @@ pub fn main() {
                 samples: Samples::new(6),
             };
             let by_name: std::collections::HashMap<&'static str, &Entry> = entries.iter().map(|e| (e.name, e)).collect();
-            let width = tier.pick(2, 3);
+            let width = tier.pick(3, 4);
             entries.par_iter().for_each(|e| check_entry(&cx, e, &by_name, width));
             let distinct = cx.distinct.lock().unwrap().len();
             if distinct < 500 || cx.rejected.load(Ordering::Relaxed) < 500 || cx.unknown_kept.load(Ordering::Relaxed) < 100 {
